@@ -5,7 +5,7 @@
    footprint of a step; `out` only grows; namespace hygiene `ns_ok` and its preservation. *)
 From stdpp Require Import gmap strings sorting.
 Require Import Grits.Base Grits.ModeDefs Grits.Modes Grits.STypes Grits.Forms Grits.Subst Grits.TcDeps Grits.Expand.
-Require Import Grits.Runtime.
+Require Import Grits.Runtime Grits.RuntimeFootprint.
 
 (* ------------------------------------------------------------------ moves *)
 Record move : Type := Move {
@@ -387,11 +387,6 @@ Proof.
   - (* FPrint *) intros [= <-]. split; cbn; [set_solver|intros ? [= <-]; cbn; lia|set_solver].
 Qed.
 
-Definition is_fwd_body (p : proc) : bool := match pr_body0 p with FFwd _ _ _ => true | _ => false end.
-(* the channels a process closes when it receives message m: its providers, on a forward request *)
-Definition closes_of (p : proc) (m : msg) : list cid :=
-  if rule_eqb (m_rule m) RFWD && negb (is_fwd_body p) then cids_of (pr_provs p) else [].
-
 Ltac on_msg_tac :=
   repeat match goal with
          | H : EOk _ = EOk _ |- _ => injection H as <-
@@ -436,51 +431,6 @@ Proof.
   - destruct (call_body F f args); [|discriminate]. by intros [= <-].
   - destruct (is_np md); by intros [= <-].
 Qed.
-
-(* ------------------------------------------------------------------ what a choice reads *)
-Definition movers (ch : choice) : list pid :=
-  match ch with Run p => [p] | Rendezvous s r => [s; r] | Control f t => [f; t] end.
-
-Definition act_chan (a : action) : list cid :=
-  match a with ASend k _ | ARecv k => [k] | _ => [] end.
-
-(* the channel cells the choice looks at *)
-Definition reads (md : exec_mode) (D : tenv) (c : config) (ch : choice) : list cid :=
-  match ch with
-  | Run p => match procs c !! p with Some pp => act_chan (action_of md D pp) | None => [] end
-  | Rendezvous s r => match procs c !! s with Some ps => act_chan (action_of md D ps) | None => [] end
-  | Control _ _ => []
-  end.
-
-(* the channels the choice closes (the receiver's providers, when the message is a forward request) *)
-Definition closes (md : exec_mode) (D : tenv) (c : config) (ch : choice) : list cid :=
-  match ch with
-  | Run p =>
-    match procs c !! p with
-    | Some pp =>
-      match action_of md D pp with
-      | ARecv k => match chans c !! k with
-                   | Some st => match ch_buf st with Some m => closes_of pp m | None => [] end
-                   | None => []
-                   end
-      | _ => []
-      end
-    | None => []
-    end
-  | Rendezvous s r =>
-    match procs c !! s, procs c !! r with
-    | Some ps, Some pr => match action_of md D ps with ASend _ m => closes_of pr m | _ => [] end
-    | _, _ => []
-    end
-  | Control f t => match procs c !! t with Some pt => cids_of (pr_provs pt) | None => [] end
-  end.
-
-(* footprint of a choice: the existing channels its step reads or writes (the fresh channels it
-   creates are in the acting process's private namespace and are dealt with by `ns_ok`) *)
-Definition footprint_ch (md : exec_mode) (D : tenv) (c : config) (ch : choice) : list cid :=
-  reads md D c ch ++ closes md D c ch.
-Definition footprint (md : exec_mode) (D : tenv) (c : config) (p : pid) : list cid :=
-  footprint_ch md D c (Run p).
 
 (* a choice depends on the configuration only through its movers and the cells it reads *)
 Lemma move_of_ext md D F c c' ch :
